@@ -50,12 +50,6 @@ impl SrtlaRegistrationManager {
         &&& self.probing_state == o.probing_state
         &&& self.probe_id == o.probe_id
     }
-    // R15-like stub: `probe_results.iter_mut().find(|r| r.conn_idx == conn_idx)` + let-chain: outside the subset.
-    // Frame (audit `probe_response_frame`): writes probe_results only.
-    #[verifier::external_body]
-    pub fn handle_probe_response(&mut self, conn_idx: usize, now: u64)
-        ensures final(self).same_handshake(old(self)),
-    { unimplemented!() }
 }
 '''
 
@@ -150,6 +144,11 @@ def add_reg(u):
         ID_SAME,
     ]))
     F(u.fn(R, 'pending_reg2_idx', impl='SrtlaRegistrationManager', sub='reg', ret='r', ensures=['r == self.pending_reg2_idx']))
+    import rules as _rules
+    # probing.rs: `probe_results.iter_mut().find(|r| r.conn_idx == conn_idx)` -> first-match cursor loop (R12 find_mut); panic freedom claimed (C09: any datagram, any state)
+    F(u.fn(PB, 'handle_probe_response', impl='SrtlaRegistrationManager', sub='reg', props=('C09',),
+           post_rewrite=[(lambda t: _rules.r12_find_mut(t)[0], None, 0)],
+           ensures=[C('C07.reg.handle_probe_response.writes_probe_results_only', 'final(self).same_handshake(old(self))')]))
     import rules
     F(u.fn(R, 'update_active_connections', impl='SrtlaRegistrationManager', sub='reg',
            pre_rewrite=[(lambda t: rules.r12_filter_count(t)[0], None, 1)],
